@@ -23,7 +23,7 @@ GETITEM, NEG, CALL, INIT = 2 * N_BIN, 2 * N_BIN + 1, 2 * N_BIN + 2, 2 * N_BIN + 
 FIXED_NAMES = []
 for _s, _n in BINOPS:
   FIXED_NAMES += [f"__{_n}__", f"__r{_n}__"]
-FIXED_NAMES += ["__getitem__", "__neg__", "__call__", "__init__"]
+FIXED_NAMES += ["__getitem__", "__neg__", "__call__", "__init__", "as_integer_ratio", "to_bytes"]
 ADVERTISED = [0, 2, 4, 6]            # ids of + - * /   (the mistakes pytype advertises), plus NEG and GETITEM
 OR_ID = 2 * 10
 
@@ -264,7 +264,19 @@ def run_pytype(preamble, texts, batch=100, procs=4):
   return _run_jobs(jobs, procs)
 
 
+_WARM = False
+
+
+def warm_up():
+  """First analysis in the parent, so that forked workers inherit the imported modules."""
+  global _WARM
+  if not _WARM:
+    _pytype_batch(("", ["v0 = 1"]))
+    _WARM = True
+
+
 def _run_jobs(jobs, procs=4):
+  warm_up()
   if len(jobs) <= 2 or procs <= 1:
     rs = [_pytype_batch(j) for j in jobs]
   else:
@@ -322,7 +334,7 @@ def stub_info():
       info.append(dict(mro=[FUNC_ID, 0], owner={}, sigs={}))
       continue
     c = b.Lookup("builtins." + cn)
-    chain = [c] + list(pytd_mro.GetBasesInMRO(c))
+    chain = [c] + [getattr(k, 'cls', k) for k in pytd_mro.GetBasesInMRO(c)]
     mro = []
     owner = {}
     sigs = {}
@@ -348,12 +360,21 @@ def rt_owner(i, name):
   return None
 
 
+def type_lookup(v, name):
+  """The attribute as CPython's slot machinery finds it: on the type's MRO, never on the instance/metaclass."""
+  for k in type(v).__mro__:
+    if name in k.__dict__:
+      return k.__dict__[name]
+  return None
+
+
 def attr_universe(stub):
   """Per head: names to probe = modelled dunders + stub names + run-time dir() + bogus names."""
   uni = []
   for i in range(NB):
-    s = set(FIXED_NAMES[:INIT]) | set(BOGUS) | set(stub[i]["owner"]) | set(dir(head_value(i)))
-    s = {n for n in s if re.fullmatch(r"[A-Za-z_][A-Za-z_0-9]*", n)}
+    s = set(BOGUS) | set(stub[i]["owner"]) | set(dir(head_value(i)))
+    s = {n for n in s if re.fullmatch(r"[A-Za-z][A-Za-z_0-9]*", n)}      # public names only
+    s |= set(FIXED_NAMES[:INIT])
     uni.append(sorted(s))
   return uni
 
@@ -378,7 +399,9 @@ def probe_pytype(uni):
   present = {(i, n) for (i, n, _), (errs, _) in zip(keys, r1) if not errs}
   texts, keys = [], []
   for (i, n) in sorted(present):
-    if call0_probed(n):
+    if n == "__call__":
+      keys.append((i, n, None)); texts.append(f"v{len(texts)} = ({HEADS[i][1]})()")
+    elif call0_probed(n):
       keys.append((i, n, None)); texts.append(f"v{len(texts)} = ({HEADS[i][1]}).{n}()")
     if n in FIXED_NAMES[:GETITEM + 1]:
       for a, ex in enumerate(ARG_EXPRS):
@@ -415,7 +438,7 @@ def probe_cpython(uni):
     n_exec += 1
     v = head_value(i)
     try:
-      f = getattr(type(v), n) if n in FIXED_NAMES[:INIT] else None
+      f = type_lookup(v, n) if n in FIXED_NAMES[:INIT] else None
       r = f(v, *args) if f is not None else getattr(v, n)(*args)
       return r is not NotImplemented
     except (TypeError, AttributeError):
@@ -427,7 +450,7 @@ def probe_cpython(uni):
     v = head_value(i)
     for n in uni[i]:
       if n in FIXED_NAMES[:INIT]:
-        if not hasattr(type(v), n):
+        if type_lookup(v, n) is None:
           continue
       elif not hasattr(v, n):
         continue
